@@ -21,6 +21,11 @@ pub struct C13;
 const EXHAUSTIVE_LIMIT: usize = 50_000;
 const EXHAUSTIVE_LIMIT_QUICK: usize = 4_000;
 
+/// Every ordering is legal for the read-modify-write operations of AtomicBitVec.
+fn ord_rmw(k: u8, salt: usize) -> Ordering {
+    [Ordering::Relaxed, Ordering::SeqCst, Ordering::Release, Ordering::AcqRel, Ordering::Acquire][(k as usize + salt) % 5]
+}
+
 fn ord(k: u8) -> Ordering {
     if k % 2 == 0 {
         Ordering::Relaxed
@@ -189,10 +194,10 @@ fn bitvec_case(cx: &mut Ctx, u: &mut Unstructured) -> R {
                 for op in prog {
                     let r = match op {
                         BOp::Set(i, v) => {
-                            a.set(i, v, ord(o));
+                            a.set(i, v, ord_rmw(o, i));
                             None
                         }
-                        BOp::Swap(i, v) => Some(a.swap(i, v, ord(o))),
+                        BOp::Swap(i, v) => Some(a.swap(i, v, ord_rmw(o, i + 1))),
                     };
                     rets.lock().unwrap()[t].push(r);
                 }
